@@ -8,7 +8,11 @@ VARIABLES i, bad
 
 Count(obs, n) == Cardinality({j \in 1..Len(obs) : obs[j].name = n})
 TheDef(obs, n) == obs[CHOOSE j \in 1..Len(obs) : obs[j].name = n]
-Ok(e) == LET exp == ExpectedDefs(e.items) IN
+\* e.ungenerable (optional): how many annotated items of the scanned files cannot be generated (an unsupported type, ...): such an item
+\* "is reported as an error rather than silently omitted" - the run fails (e.outcome = "error"), whatever else was scanned, in whatever order
+Reported(e) == e.outcome = "error"
+Ok(e) == IF "ungenerable" \in DOMAIN e /\ e.ungenerable > 0 THEN Reported(e) ELSE
+    LET exp == ExpectedDefs(e.items) IN
     /\ \A k \in 1..Len(exp) :
           /\ Count(e.defs, exp[k].name) = 1                                    \* defined, and only once
           /\ LET o == TheDef(e.defs, exp[k].name) IN
